@@ -258,11 +258,18 @@ func (m *Model) Rename(rawOld, rawNew string) Outcome {
 		return no("recovery mailbox is protected (no inferiors)")
 	}
 
-	// names are unique: every inferior's new name must be free as well
+	// names are unique: every inferior's new name must be free as well. The whole subtree moves at once: a name that
+	// the subtree itself vacates is free (RENAME a/b/c -> a/b with inferior a/b/c/d -> a/b/c).
 	infs := m.Inferiors(oldName)
 	if oldName != Inbox {
+		moving := map[string]bool{oldName: true}
 		for _, inf := range infs {
-			if _, ok := m.Boxes[newName+strings.TrimPrefix(inf, oldName)]; ok {
+			moving[inf] = true
+		}
+
+		for _, inf := range infs {
+			n := newName + strings.TrimPrefix(inf, oldName)
+			if _, ok := m.Boxes[n]; ok && !moving[n] {
 				return no("new name of an inferior exists")
 			}
 		}
@@ -291,11 +298,17 @@ func (m *Model) Rename(rawOld, rawNew string) Outcome {
 	m.Boxes[newName] = b
 	delete(m.DeletedSubs, newName)
 
-	for _, inf := range infs {
-		ib := m.Boxes[inf]
+	// the subtree moves at once: take all inferiors out first, then put them under their new names
+	moved := make([]*Box, len(infs))
+
+	for i, inf := range infs {
+		moved[i] = m.Boxes[inf]
 		delete(m.Boxes, inf)
+	}
+
+	for i, inf := range infs {
 		n := newName + strings.TrimPrefix(inf, oldName)
-		m.Boxes[n] = ib
+		m.Boxes[n] = moved[i]
 		delete(m.DeletedSubs, n)
 		out.MovedInferiors++
 	}
